@@ -21,7 +21,7 @@ theorem xmembers_run (lc : Libc) (ms : List (Gap × Quote × List StrItem × Gap
       xmembersOk ms = true → membersKNF (xmembersErase ms) = true →
       rest.length + 1 + membersNest (xmembersErase ms) ≤ t.maxDepth →
       ∀ (tr : Option Gap) (_ : ∀ g, tr = some g → g.ok = true) (c : UInt8) (off : Nat) (rs : Bytes), ∃ t' l',
-        t'.stack = ⟨.eatws, .finish, .obj (membersDenote (xmembersErase ms) kvs), none⟩ :: rest ∧ Frm t t' ∧ l'.num = none ∧
+        t'.stack = ⟨.eatws, .finish, .obj (xmembersDenote ms kvs), none⟩ :: rest ∧ Frm t t' ∧ l'.num = none ∧
         run lc t l c off (intercalateB 44 (xmembersText ms) ++ (trailText tr ++ 125 :: rs)) =
           run lc t' l' 125 (off + (intercalateB 44 (xmembersText ms)).length + (trailText tr).length + 1) rs := by
   induction ms with
@@ -35,12 +35,12 @@ theorem xmembers_run (lc : Libc) (ms : List (Gap × Quote × List StrItem × Gap
     simp only [xmembersErase, membersNest] at hdepth
     have ihd : XGoal lc d := ih (g1, q, k, g2, g3, d, g4) (by simp)
     have hkey : cstr (decodeItems k) = decodeItems k := cstr_of_nulfree _ hknf.1.1
-    have hden : ∀ ys acc, membersDenote (xmembersErase ((g1, q, k, g2, g3, d, g4) :: ys)) acc =
-        membersDenote (xmembersErase ys) (Tokener.addOrReplace acc (decodeItems k) d.erase.denote) := by
-      intro ys acc; simp [xmembersErase, membersDenote, addOrReplace_eq]
+    have hden : ∀ ys acc, xmembersDenote ((g1, q, k, g2, g3, d, g4) :: ys) acc =
+        xmembersDenote ys (Tokener.addOrReplace acc (decodeItems k) d.denote) := by
+      intro ys acc; simp [xmembersDenote, addOrReplace_eq]
     -- up to the separator `s` after the member
     have common : ∀ (s : UInt8) (_ : s = 44 ∨ s = 93 ∨ s = 125) (X : Bytes), ∃ t2 l2 c2,
-        t2.stack = ⟨.eatws, .finish, d.erase.denote, none⟩ :: ⟨.objectValueAdd, .objectValue, .obj kvs, some (decodeItems k)⟩ :: rest ∧
+        t2.stack = ⟨.eatws, .finish, d.denote, none⟩ :: ⟨.objectValueAdd, .objectValue, .obj kvs, some (decodeItems k)⟩ :: rest ∧
         Frm t t2 ∧ l2.num = none ∧
         run lc t l c off (g1.text ++ (qText q k ++ (g2.text ++ 58 :: (g3.text ++ (d.text ++ (g4.text ++ s :: X)))))) =
           run lc t2 l2 c2 (off + g1.text.length + (qText q k).length + g2.text.length + 1 + g3.text.length + d.text.length +
@@ -81,12 +81,12 @@ theorem xmembers_run (lc : Libc) (ms : List (Gap × Quote × List StrItem × Gap
             g1.text ++ (qText q k ++ (g2.text ++ 58 :: (g3.text ++ (d.text ++ (g4.text ++ 125 :: rs))))) := by
           simp [intercalateB, xmembersText, trailText]
         obtain ⟨t2, l2, c2, hs2, f2, hl2, hrun⟩ := common 125 (by simp) rs
-        have h3 := after_member_close lc t2 l2 (f2.noVal hv) d.erase.denote none .objectValue kvs (decodeItems k) rest hs2 c2
+        have h3 := after_member_close lc t2 l2 (f2.noVal hv) d.denote none .objectValue kvs (decodeItems k) rest hs2 c2
           (off + g1.text.length + (qText q k).length + g2.text.length + 1 + g3.text.length + d.text.length + g4.text.length) rs
         simp only [List.cons_append, List.nil_append, lastOr, List.getLast?_singleton, Option.getD_some, List.length_singleton] at h3
         rw [e0, hrun, h3, hden]
-        refine ⟨{ t2 with stack := ⟨.eatws, .finish, .obj (Tokener.addOrReplace kvs (decodeItems k) d.erase.denote), none⟩ :: rest }, l2,
-          by simp [xmembersErase, membersDenote], ⟨f2.md, f2.fl, f2.hs⟩, hl2, ?_⟩
+        refine ⟨{ t2 with stack := ⟨.eatws, .finish, .obj (Tokener.addOrReplace kvs (decodeItems k) d.denote), none⟩ :: rest }, l2,
+          by simp [xmembersDenote], ⟨f2.md, f2.fl, f2.hs⟩, hl2, ?_⟩
         simp only [intercalateB, xmembersText, List.length_append, List.length_cons, trailText, List.length_nil]
         congr 1
         omega
@@ -96,29 +96,29 @@ theorem xmembers_run (lc : Libc) (ms : List (Gap × Quote × List StrItem × Gap
             g1.text ++ (qText q k ++ (g2.text ++ 58 :: (g3.text ++ (d.text ++ (g4.text ++ 44 :: (g.text ++ 125 :: rs)))))) := by
           simp [intercalateB, xmembersText, trailText]
         obtain ⟨t2, l2, c2, hs2, f2, hl2, hrun⟩ := common 44 (by simp) (g.text ++ 125 :: rs)
-        have h3 := after_member_comma lc t2 l2 (f2.noVal hv) d.erase.denote none .objectValue kvs (decodeItems k) rest hs2 c2
+        have h3 := after_member_comma lc t2 l2 (f2.noVal hv) d.denote none .objectValue kvs (decodeItems k) rest hs2 c2
           (off + g1.text.length + (qText q k).length + g2.text.length + 1 + g3.text.length + d.text.length + g4.text.length)
           (g.text ++ 125 :: rs)
         simp only [List.cons_append, List.nil_append, lastOr, List.getLast?_singleton, Option.getD_some, List.length_singleton] at h3
         let t3 : Tok := { t2 with stack := ⟨.eatws, .objectFieldStartAfterSep,
-          .obj (Tokener.addOrReplace kvs (decodeItems k) d.erase.denote), none⟩ :: rest }
+          .obj (Tokener.addOrReplace kvs (decodeItems k) d.denote), none⟩ :: rest }
         have f3 : Frm t t3 := ⟨f2.md, f2.fl, f2.hs⟩
         have hwf3 : WF t3 := wf_restack hwf hs rfl f2.md (topOk_container _ _ (Or.inr ⟨rfl, _, rfl⟩))
           (posOk_of_ne (by simp) (by simp) (by simp))
         obtain ⟨t4, c4, hs4, f4, _, hr4⟩ := run_gap lc t3 l2 .objectFieldStartAfterSep
-          (.obj (Tokener.addOrReplace kvs (decodeItems k) d.erase.denote)) none rest hwf3 rfl
+          (.obj (Tokener.addOrReplace kvs (decodeItems k) d.denote)) none rest hwf3 rfl
           (f3.noVal hv) f3.hs g hg (Or.inl (by rw [f3.strict]; exact hns)) 44
           (off + g1.text.length + (qText q k).length + g2.text.length + 1 + g3.text.length + d.text.length + g4.text.length + 1)
           (125 :: rs)
         have f4' : Frm t t4 := f3.trans f4
         have h5 := close_after_sep_object lc t4 l2 (f4'.noVal hv) (by rw [f4'.strict]; exact hns)
-          (Tokener.addOrReplace kvs (decodeItems k) d.erase.denote) none rest hs4 c4
+          (Tokener.addOrReplace kvs (decodeItems k) d.denote) none rest hs4 c4
           (off + g1.text.length + (qText q k).length + g2.text.length + 1 + g3.text.length + d.text.length + g4.text.length + 1 +
             g.text.length) rs
         simp only [List.cons_append, List.nil_append, lastOr, List.getLast?_singleton, Option.getD_some, List.length_singleton] at h5
         rw [e0, hrun, h3, hr4, h5, hden]
-        refine ⟨{ t4 with stack := ⟨.eatws, .finish, .obj (Tokener.addOrReplace kvs (decodeItems k) d.erase.denote), none⟩ :: rest }, l2,
-          by simp [xmembersErase, membersDenote], ⟨f4'.md, f4'.fl, f4'.hs⟩, hl2, ?_⟩
+        refine ⟨{ t4 with stack := ⟨.eatws, .finish, .obj (Tokener.addOrReplace kvs (decodeItems k) d.denote), none⟩ :: rest }, l2,
+          by simp [xmembersDenote], ⟨f4'.md, f4'.fl, f4'.hs⟩, hl2, ?_⟩
         simp only [intercalateB, xmembersText, List.length_append, List.length_cons, trailText]
         congr 1
         omega
@@ -130,17 +130,17 @@ theorem xmembers_run (lc : Libc) (ms : List (Gap × Quote × List StrItem × Gap
         simp [intercalateB, xmembersText]
       obtain ⟨t2, l2, c2, hs2, f2, hl2, hrun⟩ := common 44 (by simp)
         (intercalateB 44 (xmembersText (m2 :: r2)) ++ (trailText tr ++ 125 :: rs))
-      have h3 := after_member_comma lc t2 l2 (f2.noVal hv) d.erase.denote none .objectValue kvs (decodeItems k) rest hs2 c2
+      have h3 := after_member_comma lc t2 l2 (f2.noVal hv) d.denote none .objectValue kvs (decodeItems k) rest hs2 c2
         (off + g1.text.length + (qText q k).length + g2.text.length + 1 + g3.text.length + d.text.length + g4.text.length)
         (intercalateB 44 (xmembersText (m2 :: r2)) ++ (trailText tr ++ 125 :: rs))
       simp only [List.cons_append, List.nil_append, lastOr, List.getLast?_singleton, Option.getD_some, List.length_singleton] at h3
       let t3 : Tok := { t2 with stack := ⟨.eatws, .objectFieldStartAfterSep,
-        .obj (Tokener.addOrReplace kvs (decodeItems k) d.erase.denote), none⟩ :: rest }
+        .obj (Tokener.addOrReplace kvs (decodeItems k) d.denote), none⟩ :: rest }
       have f3 : Frm t t3 := ⟨f2.md, f2.fl, f2.hs⟩
       have hwf3 : WF t3 := wf_restack hwf hs rfl f2.md (topOk_container _ _ (Or.inr ⟨rfl, _, rfl⟩))
         (posOk_of_ne (by simp) (by simp) (by simp))
       obtain ⟨t4, l4, hs4, f4, hl4, hrun4⟩ := ihr (by simp) (fun e he => ih e (by simp [he])) t3 l2 .objectFieldStartAfterSep (Or.inr rfl)
-        (Tokener.addOrReplace kvs (decodeItems k) d.erase.denote) none rest hwf3 rfl (f3.noVal hv) f3.hs hl2
+        (Tokener.addOrReplace kvs (decodeItems k) d.denote) none rest hwf3 rfl (f3.noVal hv) f3.hs hl2
         (by rw [f3.strict]; exact hns) hrok hknf.2
         (by rw [f3.md]; omega) tr htr 44
         (off + g1.text.length + (qText q k).length + g2.text.length + 1 + g3.text.length + d.text.length + g4.text.length + 1) rs
